@@ -86,6 +86,7 @@ Definition sent_of (o : outev) : list RS.sent :=
   | OHeaders sid true _ | OData sid true _ => [RS.SentEndStream sid]
   | ORst sid _ => [RS.SentRst sid]
   | OGoAway _ _ => [RS.SentGoAway]
+  | OExit _ _ | OPanic _ _ => [RS.Closed_connection]
   | _ => []
   end.
 
@@ -100,14 +101,20 @@ Notation step := (step dec_field enc_field enc_set_max cfg).
 
 (* ---------- the schedule ---------- *)
 
+Inductive local : Type := LClock (t : Z) | LTimer | LIdle | LCloser.
+Definition local_event (l : local) : event :=
+  match l with LClock t => EvClock t | LTimer => EvTimer | LIdle => EvIdle | LCloser => EvCloser end.
+
 Inductive item : Type :=
 | IIn (i : rl_input)                 (* the peer's next frame: read loop, then stream loop *)
-| IDone (sid : N) (r : response).    (* a handler returns *)
+| IDone (sid : N) (r : response)     (* a handler returns *)
+| ILocal (l : local).                (* time passes, timers fire *)
 
 Definition feed (c : sconn) (it : item) : sconn :=
   match it with
   | IIn i => step (step c (EvRL i)) EvSL
   | IDone sid r => step c (EvDone sid r)
+  | ILocal l => step c (local_event l)
   end.
 
 (* outputs added between c and c', oldest first *)
@@ -117,9 +124,11 @@ Definition new_out (c c' : sconn) : list outev :=
 Definition reaction_of (c : sconn) (i : rl_input) (c' : sconn) : RS.reaction :=
   classify (input_sid i) (new_out c c').
 
-(* ids the closed-stream ring has dropped between c and c' *)
-Definition evicted (c c' : sconn) : list N :=
-  filter (fun id => negb (in_ring c' id)) (map fst (sc_ring c)).
+(* The closed streams the model no longer remembers are forgotten by the specification too
+   (RFC 5.1: "an endpoint MAY choose to limit the period over which it ignores frames"): the
+   period is the time the id stays in the 256-entry ring. *)
+Definition sync_forget (c' : sconn) (s : RS.state) : RS.state :=
+  fold_left (fun s id => if in_ring c' id then s else RS.forget s id) (map fst (RS.known s)) s.
 
 (* the specification follows: the reaction to the frame, then what the server sent on its
    own account in the same steps, then the closed streams it has stopped remembering *)
@@ -127,48 +136,92 @@ Definition spec_feed (c : sconn) (it : item) (s : RS.state) : RS.state :=
   let c' := feed c it in
   let s1 := match it with
             | IIn i => RS.spec_next s (abs_input i) (resolve s (abs_input i) (reaction_of c i c'))
-            | IDone _ _ => s
+            | _ => s
             end in
-  let s2 := fold_left RS.spec_sent (flat_map sent_of (new_out c c')) s1 in
-  fold_left RS.forget (evicted c c') s2.
+  sync_forget c' (fold_left RS.spec_sent (flat_map sent_of (new_out c c')) s1).
 
 Definition item_ok (c : sconn) (it : item) (s : RS.state) : bool :=
   match it with
   | IIn i => RS.allowed s (abs_input i) (resolve s (abs_input i) (reaction_of c i (feed c it)))
-  | IDone _ _ => true
+  | _ => true
   end.
+
+(* ---------- the two places where the model is known to differ from the RFC ---------- *)
+
+(* D1: a PRIORITY frame on an even stream id (an idle stream of the server's own id space,
+       RFC 6.3 allows it) is a connection error in the read loop.
+   D3: a WINDOW_UPDATE on a stream the peer itself closed with RST_STREAM is ignored
+       (RFC 5.1: stream error STREAM_CLOSED); the ring does not record who closed. *)
+Definition known_deviation (c : sconn) (s : RS.state) (i : rl_input) : bool :=
+  match i with
+  | RFrame f =>
+    match sf_kind f with
+    | KPriority => N.even (sf_sid f) && negb (sf_sid f =? 0)
+    | KWinUpd =>
+      match ring_find c (sf_sid f), RS.st_of s (sf_sid f) with
+      | Some false, RS.Closed RS.PeerRst => true
+      | _, _ => false
+      end
+    | _ => false
+    end
+  | _ => false
+  end.
+
+(* ---------- the frames seen on each stream ---------- *)
+
+Definition frames_on (sid : N) (its : list item) : list RS.frame :=
+  flat_map (fun it => match it with
+                      | IIn (RFrame f) => if sf_sid f =? sid then [abs_frame f] else []
+                      | _ => []
+                      end) its.
 
 (* ---------- the abstraction relation ---------- *)
 
 Definition tbl (c : sconn) (id : N) : option stream := strms_search (sc_strms c) id.
 
-(* how one stream id looks in the model / in the specification *)
-Definition R_stream (c : sconn) (s : RS.state) (id : N) : Prop :=
+(* how one stream id looks in the model *)
+Inductive mview : Type :=
+| MTbl (st : sstate)     (* in the stream table, with this state *)
+| MRing (weReset : bool) (* closed and remembered in the ring; reset by the server or not *)
+| MOld                   (* not above the highest id the peer has used, and forgotten *)
+| MNew.                  (* above the highest id the peer has used *)
+
+Definition view (c : sconn) (id : N) : mview :=
   match tbl c id with
-  | Some st =>
-    match st_state st with
-    | SOpen => RS.st_of s id = RS.Open
-    | SHalfClosed => RS.st_of s id = RS.HalfClosedRemote
-    | _ => False
-    end
+  | Some st => MTbl (st_state st)
   | None =>
     match ring_find c id with
-    | Some true => RS.st_of s id = RS.Closed RS.WeRst
-    | Some false => RS.st_of s id = RS.Closed RS.PeerEnd \/ RS.st_of s id = RS.Closed RS.PeerRst
-    | None => RS.st_of s id = if id <=? sc_highestID c then RS.Closed RS.Implicit else RS.Idle
+    | Some b => MRing b
+    | None => if id <=? sc_highestID c then MOld else MNew
     end
   end.
+
+(* ... and what the specification must think of it *)
+Definition rel (m : mview) (x : RS.sstate) : Prop :=
+  match m with
+  | MTbl SOpen => x = RS.Open
+  | MTbl SHalfClosed => x = RS.HalfClosedRemote
+  | MTbl _ => False
+  | MRing true => x = RS.Closed RS.WeRst
+  | MRing false => x = RS.Closed RS.PeerEnd \/ x = RS.Closed RS.PeerRst
+  | MOld => x = RS.Closed RS.Implicit
+  | MNew => x = RS.Idle
+  end.
+
+Definition R_stream (c : sconn) (s : RS.state) (id : N) : Prop := rel (view c id) (RS.st_of s id).
 
 Definition R_block (c : sconn) (s : RS.state) : Prop :=
   RS.block s = if sc_expectCont c =? 0 then None else Some (sc_expectCont c).
 
-(* After the first connection error the specification stops caring (RS.allowed). Until
-   then both loops are running and, between two items of the lockstep schedule, the
-   forwarding queue is empty. *)
+(* While both loops run: between two items of the lockstep schedule the forwarding queue
+   is empty and every stream id looks the same on both sides.  Once a loop has ended nothing
+   is processed any more, and the specification has seen the connection die. *)
+Definition over (c : sconn) : bool := sc_sl_done c || sc_rl_done c.
+
 Definition R (c : sconn) (s : RS.state) : Prop :=
-  RS.dead s = true \/
-  (sc_sl_done c = false /\ sc_rl_done c = false /\ sc_readerQ c = [] /\
-   (forall id, N.odd id = true -> R_stream c s id) /\ R_block c s /\ RS.goaway s = sc_closing c /\ RS.highest s = sc_highestID c).
+  if over c then RS.dead s = true
+  else sc_readerQ c = [] /\ (forall id, N.odd id = true -> R_stream c s id) /\ R_block c s /\
+       RS.goaway s = sc_closing c /\ RS.highest s = sc_highestID c.
 
 (* the same, decidable on a finite set of ids (for the search) *)
 Definition sstate_eqb' (a b : RS.sstate) : bool :=
@@ -181,29 +234,24 @@ Definition sstate_eqb' (a b : RS.sstate) : bool :=
   end.
 Definition is_closed (x : RS.sstate) : bool := match x with RS.Closed _ => true | _ => false end.
 
-Definition R_stream_b (c : sconn) (s : RS.state) (id : N) : bool :=
-  match tbl c id with
-  | Some st =>
-    match st_state st with
-    | SOpen => sstate_eqb' (RS.st_of s id) RS.Open
-    | SHalfClosed => sstate_eqb' (RS.st_of s id) RS.HalfClosedRemote
-    | _ => false
-    end
-  | None =>
-    match ring_find c id with
-    | Some true => sstate_eqb' (RS.st_of s id) (RS.Closed RS.WeRst)
-    | Some false => sstate_eqb' (RS.st_of s id) (RS.Closed RS.PeerEnd) || sstate_eqb' (RS.st_of s id) (RS.Closed RS.PeerRst)
-    | None => sstate_eqb' (RS.st_of s id) (if id <=? sc_highestID c then RS.Closed RS.Implicit else RS.Idle)
-    end
+Definition rel_b (m : mview) (x : RS.sstate) : bool :=
+  match m with
+  | MTbl SOpen => sstate_eqb' x RS.Open
+  | MTbl SHalfClosed => sstate_eqb' x RS.HalfClosedRemote
+  | MTbl _ => false
+  | MRing true => sstate_eqb' x (RS.Closed RS.WeRst)
+  | MRing false => sstate_eqb' x (RS.Closed RS.PeerEnd) || sstate_eqb' x (RS.Closed RS.PeerRst)
+  | MOld => sstate_eqb' x (RS.Closed RS.Implicit)
+  | MNew => sstate_eqb' x RS.Idle
   end.
+Definition R_stream_b (c : sconn) (s : RS.state) (id : N) : bool := rel_b (view c id) (RS.st_of s id).
 
 Definition R_b (ids : list N) (c : sconn) (s : RS.state) : bool :=
-  RS.dead s ||
-  (negb (sc_sl_done c) && negb (sc_rl_done c)
-   && forallb (fun id => negb (N.odd id) || R_stream_b c s id) ids
+  if over c then RS.dead s
+  else forallb (fun id => negb (N.odd id) || R_stream_b c s id) ids
    && match RS.block s with None => sc_expectCont c =? 0 | Some b => negb (b =? 0) && (sc_expectCont c =? b) end
    && Bool.eqb (RS.goaway s) (sc_closing c) && (RS.highest s =? sc_highestID c)
-   && match sc_readerQ c with [] => true | _ => false end).
+   && match sc_readerQ c with [] => true | _ => false end.
 
 (* ---------- running both side by side ---------- *)
 
